@@ -1931,6 +1931,119 @@ def generate_symrev():
     return '\n'.join(lines) + '\n'
 
 
+# ---------------------------------------------------------------- translator to coq/AccAst.v
+class AccTranslator:
+    """accumulators.py -> AccAst.afun (fail-closed)"""
+
+    def __init__(self, where):
+        self.where = where
+
+    def fail(self, what, node=None):
+        raise TieError('cannot translate %s in %s: %s' % (what, self.where, ast.dump(node)[:160] if node is not None else ''))
+
+    def expr(self, e):
+        if isinstance(e, ast.Name):
+            return '(AName %s)' % coq_str(e.id)
+        if isinstance(e, ast.Constant):
+            if e.value is None:
+                return 'ANone'
+            if e.value == 0 and isinstance(e.value, int) and not isinstance(e.value, bool):
+                return 'AZero'
+            self.fail('literal', e)
+        if isinstance(e, ast.Dict) and not e.keys:
+            return 'AEmptyDict'
+        if isinstance(e, ast.Attribute) and isinstance(e.value, ast.Name) and e.value.id == 'self' and e.attr.startswith('_'):
+            return '(AField %s)' % coq_str(e.attr)
+        if isinstance(e, ast.BinOp) and isinstance(e.op, ast.Add):
+            return '(APlus %s %s)' % (self.expr(e.left), self.expr(e.right))
+        if isinstance(e, ast.IfExp):
+            return '(AIfExp %s %s %s)' % (self.expr(e.test), self.expr(e.body), self.expr(e.orelse))
+        if isinstance(e, ast.Compare) and len(e.ops) == 1 and isinstance(e.ops[0], (ast.Is, ast.IsNot)) \
+                and isinstance(e.comparators[0], ast.Constant) and e.comparators[0].value is None:
+            t = '(AIsNone %s)' % self.expr(e.left)
+            return t if isinstance(e.ops[0], ast.Is) else '(ANot %s)' % t
+        if isinstance(e, ast.Call) and not e.keywords:
+            f, a = e.func, e.args
+            if isinstance(f, ast.Attribute) and isinstance(f.value, ast.Name) and f.value.id == 'va' \
+                    and f.attr == 'get_variable_name' and len(a) == 1:
+                return '(AGetName %s)' % self.expr(a[0])
+            if isinstance(f, ast.Attribute) and f.attr == 'get' and len(a) == 2:
+                return '(AGet %s %s %s)' % (self.expr(f.value), self.expr(a[0]), self.expr(a[1]))
+            if isinstance(f, ast.Attribute) and isinstance(f.value, ast.Name) and f.value.id == 'ex' and f.attr == 'Constant' \
+                    and len(a) == 1 and isinstance(a[0], ast.Constant) and a[0].value == 0 and not isinstance(a[0].value, bool):
+                return 'AConst0'
+        self.fail('expression', e)
+
+    def block(self, stmts):
+        out = []
+        for st in stmts:
+            if isinstance(st, ast.Expr) and isinstance(st.value, ast.Constant):
+                continue
+            if isinstance(st, ast.AnnAssign) and st.value is None:
+                continue
+            out.append(self.stmt(st))
+        return coq_list(out)
+
+    def stmt(self, st):
+        if isinstance(st, ast.Return) and st.value is not None:
+            return '(ASReturn %s)' % self.expr(st.value)
+        if isinstance(st, ast.If):
+            return '(ASIf %s %s %s)' % (self.expr(st.test), self.block(st.body), self.block(st.orelse))
+        if isinstance(st, ast.For) and not st.orelse and isinstance(st.target, ast.Name):
+            return '(ASFor %s %s %s)' % (coq_str(st.target.id), self.expr(st.iter), self.block(st.body))
+        if isinstance(st, ast.Assign) and len(st.targets) == 1:
+            t = st.targets[0]
+            if isinstance(t, ast.Name):
+                return '(ASAssign %s %s)' % (coq_str(t.id), self.expr(st.value))
+            if isinstance(t, ast.Subscript):
+                if isinstance(t.value, ast.Attribute) and isinstance(t.value.value, ast.Name) and t.value.value.id == 'self':
+                    return '(ASSetFieldItem %s %s %s)' % (coq_str(t.value.attr), self.expr(t.slice), self.expr(st.value))
+                if isinstance(t.value, ast.Name):
+                    return '(ASSetItem %s %s %s)' % (coq_str(t.value.id), self.expr(t.slice), self.expr(st.value))
+        self.fail('statement', st)
+
+    def function(self, fd):
+        if getattr(fd, 'decorator_list', None):
+            self.fail('decorated function', fd)
+        a = fd.args
+        if a.kwonlyargs or a.kwarg or a.posonlyargs or a.vararg or a.defaults:
+            self.fail('parameters', fd)
+        params = [p.arg for p in a.args]
+        if not params or params[0] != 'self':
+            self.fail('method without self', fd)
+        return '{| a_params := %s; a_body := %s |}' % (coq_list([coq_str(p) for p in params[1:]]), self.block(fd.body))
+
+
+def generate_acc():
+    lines = ['(* GENERATED by harness/tie_extract.py: the current source of accumulators.py, translated into',
+             '   AccAst.afun -- do not edit *)',
+             'From Coq Require Import ZArith List String.', 'From SM Require Import AccAst.',
+             'Import ListNotations.', 'Open Scope string_scope.', '']
+    t = parse(os.path.join(SRC, '_private', 'accumulators.py'))
+    inits = []
+    for node in t.body:
+        if isinstance(node, ast.ClassDef):
+            for m in methods_of(node):
+                if m.name in ('add_to', 'numeric_partials_for', 'synthetic_partials_for'):
+                    tr = AccTranslator('%s.%s' % (node.name, m.name))
+                    lines.append('Definition gen_acc_%s_%s : afun := %s.' % (node.name, m.name, tr.function(m)))
+                elif m.name == '__init__':
+                    # self._x = {} and a type declaration, nothing else
+                    body = [s_ for s_ in m.body if not (isinstance(s_, ast.AnnAssign) and s_.value is None)
+                            and not (isinstance(s_, ast.Expr) and isinstance(s_.value, ast.Constant))]
+                    ok = (len(body) == 1 and isinstance(body[0], ast.Assign) and isinstance(body[0].value, ast.Dict)
+                          and not body[0].value.keys and isinstance(body[0].targets[0], ast.Attribute))
+                    if not ok:
+                        raise TieError('__init__ of %s is not a single `self._x = {}`' % node.name)
+                    inits.append((node.name, body[0].targets[0].attr))
+                elif not (m.name.startswith('__') and m.name.endswith('__')):
+                    raise TieError('unexpected method %s.%s' % (node.name, m.name))
+    lines.append('')
+    lines.append('Definition gen_acc_inits : list (string * string) := ' +
+                 coq_list(['(%s, %s)' % (coq_str(c), coq_str(f)) for c, f in inits]) + '.')
+    return '\n'.join(lines) + '\n'
+
+
 def write_if_changed(path, text):
     old = open(path).read() if os.path.exists(path) else None
     if old != text:
@@ -2014,6 +2127,14 @@ def main():
         print('TIE-TRANSLATE-FAILED: %s' % ex)
     if write_if_changed(os.path.join(coqdir, 'GeneratedSymRev.v'), vtext):
         print('GeneratedSymRev.v rewritten')
+    try:
+        atext = generate_acc()
+    except (TieError, SyntaxError, OSError) as ex:
+        atext = ('(* GENERATED: the translator FAILED CLOSED: %s *)\n'
+                 'Definition acc_translator_failed : False := I.\n') % str(ex).replace('*)', '* )')
+        print('TIE-TRANSLATE-FAILED: %s' % ex)
+    if write_if_changed(os.path.join(coqdir, 'GeneratedAcc.v'), atext):
+        print('GeneratedAcc.v rewritten')
     out = sys.argv[1] if len(sys.argv) > 1 else os.path.join(os.path.dirname(os.path.dirname(os.path.abspath(__file__))), 'coq', 'Generated.v')
     try:
         text = generate()
